@@ -228,7 +228,7 @@ class Strategy():
             elif (gc_surplus < -self.EPS
                     and vehicle.get_delta_soc() < -self.EPS
                     and vehicle.vehicle_type.v2g
-                    and gc.current_loads.get(cs_id, 0) < self.EPS
+                    and abs(gc.current_loads.get(cs_id, 0)) < self.EPS
                     and not gc_cheap[cs.parent]):
                 # GC draws power, surplus in vehicle,
                 # not currently charging and V2G capable: support GC
